@@ -46,3 +46,71 @@ def batches(data, kinds):
         if b.events:
             out.append(b)
     return out
+
+
+def transform_calls(data):
+    """The Transform operations the test-suite performed, per schema: [(real Schema, exported js, [call...])].
+    A call holds the projected document before the operation and its arguments (see pmv_tracer)."""
+    from prosemirror.model import Schema
+    out = []
+    by = {}
+    for sid, rec in data.get("calls", []):
+        by.setdefault(sid, []).append(rec)
+    for sid, recs in by.items():
+        spec, js = data.get("specs", {}).get(sid), data["schemas"].get(sid)
+        if spec is None or js is None:
+            continue
+        try:
+            sch = Schema(spec)
+        except Exception:  # noqa: BLE001
+            continue
+        seen, uniq = set(), []
+        for r in recs:
+            k = json.dumps(r, sort_keys=True)
+            if k not in seen:
+                seen.add(k)
+                uniq.append(r)
+        out.append((sch, js, uniq))
+    return out
+
+
+def replay_calls(kind):
+    """Batches (one per schema of the test-suite) with the suite's own Transform operations of the given kind
+    ("replace" = the seven replace-family operations, "mark" = add_mark / remove_mark) re-executed on a fresh
+    Transform of the recorded document and recorded as the usual operation events.  Returns ([(Batch, what)], note)."""
+    from . import opdrive, proj, schemas
+    data, last = record()
+    bundled_nodes = set(schemas.build("test")[0].nodes)
+    jobs = []
+    for sch, js, calls in transform_calls(data):
+        b = trace.Batch(js)
+        total = set(sch.nodes) == bundled_nodes        # "never raises" is claimed for the bundled family only
+        for c in calls:
+            try:
+                rd = proj.unproj(sch, c["doc"], {k: json.loads(v) for k, v in c["ra"].items()} or None)
+                di = b.doc(proj.proj(rd))
+                f, t = c["from"], c["to"]
+                if kind == "replace" and c["op"] in ("replace", "replace_range"):
+                    opdrive.ev_replace_family(b, rd, di, c["op"], f, t, proj.unproj_slice(sch, c["slice"]), total)
+                elif kind == "replace" and c["op"] in ("delete", "delete_range"):
+                    opdrive.ev_replace_family(b, rd, di, c["op"], f, t, None, total)
+                elif kind == "replace" and c["op"] in ("replace_with", "replace_range_with", "insert"):
+                    frag = proj.unproj_slice(sch, c["slice"]).content
+                    if frag.child_count == 1:
+                        opdrive.ev_replace_family(b, rd, di, c["op"], f, t, frag.first_child, total)
+                elif kind == "mark" and c["op"] == "add_mark":
+                    from .steps import mk_mark
+                    opdrive.ev_mark_op(b, rd, di, "add_mark", f, t, mark=mk_mark(sch, c["mark"]), total=total)
+                elif kind == "mark" and c["op"] == "remove_mark":
+                    from .steps import mk_mark
+                    if c.get("mark"):
+                        opdrive.ev_mark_op(b, rd, di, "remove_mark", f, t, mark=mk_mark(sch, c["mark"]), total=total)
+                    elif c.get("mtype"):
+                        opdrive.ev_mark_op(b, rd, di, "remove_mark_type", f, t, mtype=sch.marks[c["mtype"]], total=total)
+                    else:
+                        opdrive.ev_mark_op(b, rd, di, "remove_mark_all", f, t, total=total)
+            except Exception:  # noqa: BLE001 - a call the harness cannot rebuild: not a case
+                continue
+        if b.events:
+            jobs.append((b, f"T testsuite[{js['name']}]"))
+    return jobs, f"repository test-suite under the tracer: {last}"
